@@ -303,6 +303,15 @@ func GenProg(t *Tape, pf *Profile) *Prog {
 		g.selVar = v
 		g.p.Body = append(g.p.Body, &Stmt{K: SDraw, Var: v, Gen: &GenSpec{K: "intrange", A: 0, B: 99}, Label: "sel"})
 	}
+	if pf.RejectHeavy && t.Chance("prog.streak_prefix", 6) {
+		// long rejection streaks INSIDE single draws: permutations of sizes where the unbiased integer primitive rejects
+		// almost every other attempt, dozens of times per draw
+		for i := 0; i < 3; i++ {
+			v := g.newVar()
+			vars = append(vars, v)
+			g.p.Body = append(g.p.Body, &Stmt{K: SDraw, Var: v, Gen: &GenSpec{K: "perm", A: []int{36, 68, 70}[i] + t.Int("prog.streak_n", 0, 3)}, Label: ""})
+		}
+	}
 	n := t.Int("prog.len", 2, pf.MaxStmts)
 	want := t.Int("prog.fails", pf.MinFail, pf.MaxFail)
 	g.p.Body = append(g.p.Body, g.body(n, &vars, 0, want, "body")...)
@@ -485,6 +494,11 @@ func (g *progGen) genSpec(depth int) *GenSpec {
 		}
 		return &GenSpec{K: "distinct", A: t.Int("gen.dom", 0, 6)}
 	case 6:
+		if g.pf.RejectHeavy && t.Chance("gen.bigperm", 35) {
+			// sizes just above a power of two: the unbiased integer primitive rejects almost every other attempt, and
+			// a permutation makes dozens of such draws (long rejection streaks inside one draw)
+			return &GenSpec{K: "perm", A: []int{33, 65}[t.Pick("gen.permbase", 2)] + t.Int("gen.permextra", 0, 6)}
+		}
 		return &GenSpec{K: "perm", A: t.Int("gen.perm", 0, 6)}
 	case 7:
 		if t.Chance("gen.makemap", 20) {
